@@ -62,7 +62,7 @@ class Prop(BaseProp):
                 "title_changes", "clears"]
 
     def n_cases(self, tier):
-        return 3000 if tier == "quick" else 60000
+        return 15000 if tier == "quick" else 250000
 
     def setup_worker(self):
         runner.cminx()
